@@ -281,13 +281,19 @@ def run_c10(tier, seed):
 
 # ------------------------------------------------------------------------------------------ C11
 def one_c11(job):
-    idx, hists, conc, inv, pubs, wd = job
+    idx, hists, conc, inv, pubs, wd = job[:6]
+    big = len(job) > 6 and job[6]
     jd = os.path.join(wd, "c11_%d" % idx)
     os.makedirs(jd, exist_ok=True)
     db, db2 = os.path.join(jd, "db"), os.path.join(jd, "db2")
     sid = "C11-%d" % idx
     world = dict(nkeys=len(hists) + 2)
     ops = []
+    if big:
+        # a well-filled database: every key first signs a genesis attestation and a proposal, so each holds both kinds of record
+        for k in range(len(hists)):
+            ops.append(dict(id="k%dg" % k, kind="att", ents=[dict(k=k, s=0, t=0, root="G")]))
+            ops.append(dict(id="k%dp" % k, kind="prop", ents=[dict(k=k, slot=0, root="G")]))
     nsteps = max(len(h) for h in hists)
     for i in range(nsteps):
         for k, h in enumerate(hists):
@@ -344,13 +350,19 @@ def run_c11(tier, seed):
         hists = [[st for st in h if st["op"] in ("att", "prop") and st["dom"] in ("att", "prop")] for h in hists]
         exe = build_harness("dirkdrv")
         build_dirk()
-        pubs = json.loads(subprocess.run([exe, "-pubkeys", "6"], stdout=subprocess.PIPE, text=True).stdout)
+        pubs = json.loads(subprocess.run([exe, "-pubkeys", "66"], stdout=subprocess.PIPE, text=True).stdout)
         concs = concretisations(3, seed, 0)
         jobs = []
         for i in range(0, len(hists) - 3, 4):
             cname, conc = concs[(i // 4) % len(concs)]
             inv = {int(v): a for a, v in enumerate(conc)}
             jobs.append((i // 4, hists[i:i + 4], conc, inv, pubs, wd))
+        # databases with more than a hundred records (62 keys with both kinds of record + 2 legacy keys): what is exported must not depend on the record count
+        for bi in range(1 if tier == "quick" else 6):
+            cname, conc = concs[bi % len(concs)]
+            inv = {int(v): a for a, v in enumerate(conc)}
+            hs = [hists[(bi * 62 + j) % len(hists)] for j in range(62)]
+            jobs.append((9000 + bi, hs, conc, inv, pubs, wd, True))
         with ThreadPoolExecutor(max_workers=NCPU) as ex:
             results = list(ex.map(one_c11, jobs))
         errs = [r for r in results if "error" in r]
